@@ -239,6 +239,7 @@ static void monitor(const e1::Event &e) {
 struct Job {
   Config cfg;
   int threads, ownership, bound;
+  bool prune; // bounded search pruned at states already visited with no more deviations used
 };
 
 int main(int argc, char **argv) {
@@ -285,24 +286,42 @@ int main(int argc, char **argv) {
   }
   std::vector< Job > jobs;
   for (const Config &c : cfgs) {
-    jobs.push_back({c, 2, 1, 1});
+    jobs.push_back({c, 2, 1, 1, false});
     if (A.thorough()) {
-      jobs.push_back({c, 3, 1, 1});
-      jobs.push_back({c, 2, 0, 1});
+      jobs.push_back({c, 3, 1, 1, false});
+      jobs.push_back({c, 2, 0, 1, false});
     }
   }
   if (A.thorough()) {
     // deviation bound 2: the smallest layout with two steps, two-subgrid layouts with one step
-    jobs.push_back({cfgs[0], 2, 1, 2});
+    jobs.push_back({cfgs[0], 2, 1, 2, false});
     Config one = cfgs[1];
     one.steps = 1;
-    jobs.push_back({one, 2, 1, 2});
+    jobs.push_back({one, 2, 1, 2, false});
     one = cfgs[8];
     one.steps = 1;
-    jobs.push_back({one, 2, 1, 2});
+    jobs.push_back({one, 2, 1, 2, false});
   } else {
-    jobs.push_back({cfgs[1], 3, 1, 1});
-    jobs.push_back({cfgs[4], 3, 0, 1});
+    jobs.push_back({cfgs[1], 3, 1, 1, false});
+    jobs.push_back({cfgs[4], 3, 0, 1, false});
+  }
+  if (A.thorough() && g_mode == 0) {
+    // deep search of the smallest layouts, pruned at visited states (state = every atomic variable
+    // seen + each thread's progress and what it observed, incl. task indices); reported as
+    // state-pruned, not claimed exhaustive
+    Config one = cfgs[0];
+    one.steps = 1;
+    jobs.push_back({one, 2, 1, 3, true});
+  }
+  if (!A.get("only").empty()) {
+    std::vector< Job > keep;
+    for (const Config &c : cfgs)
+      if (c.name == A.get("only")) {
+        Config cc = c;
+        cc.steps = (int)A.geti("steps", c.steps);
+        keep.push_back({cc, (int)A.geti("threads", 2), (int)A.geti("ownership", 1), (int)A.geti("bound", 1), A.geti("prune", 0) != 0});
+      }
+    jobs = keep;
   }
   if (c04_only && A.replay.empty()) {
     std::vector< Job > keep;
@@ -315,11 +334,11 @@ int main(int argc, char **argv) {
     jobs.clear();
     Config one_step = cfgs[1];
     one_step.steps = 1;
-    jobs.push_back({A.thorough() ? cfgs[1] : one_step, 2, 1, 1});
+    jobs.push_back({A.thorough() ? cfgs[1] : one_step, 2, 1, 1, false});
     if (A.thorough()) {
-      jobs.push_back({cfgs[3], 2, 0, 1});
-      jobs.push_back({cfgs[4], 2, 1, 1});
-      jobs.push_back({cfgs[1], 3, 1, 1});
+      jobs.push_back({cfgs[3], 2, 0, 1, false});
+      jobs.push_back({cfgs[4], 2, 1, 1, false});
+      jobs.push_back({cfgs[1], 3, 1, 1, false});
     }
   }
   if (!A.replay.empty()) {
@@ -329,7 +348,7 @@ int main(int argc, char **argv) {
     for (const Config &c : cfgs)
       if (c.name == cname)
         jobs.push_back({c, (int)atol(replay_field(txt, "threads").c_str()),
-                        (int)atol(replay_field(txt, "ownership").c_str()), -1});
+                        (int)atol(replay_field(txt, "ownership").c_str()), -1, false});
     if (jobs.empty()) {
       fprintf(stderr, "replay: unknown configuration '%s'\n", cname.c_str());
       return 2;
@@ -365,6 +384,10 @@ int main(int argc, char **argv) {
       e1::sched.monitor = monitor;
       e1::sched.max_steps = 400000;
       e1::sched.livelock_yields = 200;
+      if (J.prune) {
+        e1::sched.track_atomics = true;
+        e1::sched.hash_states = true;
+      }
       if (!freopen("/dev/null", "w", stdout)) {
       }
       if (A.replay.empty() && !freopen("/dev/null", "w", stderr)) {
@@ -410,6 +433,7 @@ int main(int argc, char **argv) {
     }
     e1::ExploreOptions opt;
     opt.max_bound = J.bound;
+    opt.prune_bounded = J.prune;
     opt.jobs = 16;
     opt.exec_timeout = 60.;
     double remaining = A.deadline - R.elapsed();
@@ -433,7 +457,7 @@ int main(int argc, char **argv) {
     std::string verdicts;
     for (auto &kv : st.verdicts)
       verdicts += fmt("%s:%" PRIu64 " ", e1::verdict_name(kv.first), kv.second);
-    R.set_json("run:" + tag + fmt("/bound=%d", J.bound),
+    R.set_json("run:" + tag + fmt("/bound=%d%s", J.bound, J.prune ? "/state-pruned" : ""),
                fmt("{\"executions\": %" PRIu64 ", \"choice_points_default\": %zu, \"max_choice_points\": %" PRIu64
                    ", \"distinct_outcomes\": %zu, \"bound_completed\": %d, \"verdicts\": \"%s\"}",
                    st.executions, d1.choices.size(), st.max_points, st.outcomes.size(), st.bound_completed,
